@@ -25,7 +25,7 @@ let () =
        let line = input_line stdin in
        let toks = String.split_on_char ' ' line in
        let case = List.filter_map (fun t -> if t = "" then None else Some (n_of_int (int_of_string t))) toks in
-       let res = run case in
+       let res = dispatch case in
        Buffer.clear buf;
        List.iteri (fun i x -> if i > 0 then Buffer.add_char buf ' '; Buffer.add_string buf (string_of_int (int_of_n x))) res;
        Buffer.add_char buf '\n';
